@@ -127,17 +127,25 @@ def _history_step(rnd, log):
     else:
         what = rnd.choice(["propagator", "var_heuristic", "dom_heuristic", "consistency_algorithm"])
         log[-1] = "register_" + what
+        # the registered function is a shipped one under a new index: a later case may be run through the new index
+        # and must produce exactly the trace of the shipped index (same function)
         if what == "propagator":
             PP.register_propagator(PP.get_triggers_dummy, PP.get_complexity_dummy, PP.compute_domains_dummy)
         elif what == "var_heuristic":
-            H.register_var_heuristic(H.VAR_HEURISTIC_FCTS[H.VAR_HEURISTIC_SMALLEST_DOMAIN])
+            src = rnd.choice([H.VAR_HEURISTIC_FIRST_NOT_INSTANTIATED, H.VAR_HEURISTIC_SMALLEST_DOMAIN,
+                              H.VAR_HEURISTIC_GREATEST_DOMAIN])
+            _ALIAS["vh"][src] = H.register_var_heuristic(H.VAR_HEURISTIC_FCTS[src])
         elif what == "dom_heuristic":
-            H.register_dom_heuristic(H.DOM_HEURISTIC_FCTS[H.DOM_HEURISTIC_MAX_VALUE])
+            src = rnd.choice([H.DOM_HEURISTIC_MIN_VALUE, H.DOM_HEURISTIC_MAX_VALUE, H.DOM_HEURISTIC_SPLIT_LOW,
+                              H.DOM_HEURISTIC_MID_VALUE])
+            _ALIAS["dh"][src] = H.register_dom_heuristic(H.DOM_HEURISTIC_FCTS[src])
         else:
-            CA.register_consistency_algorithm(CA.CONSISTENCY_ALG_FCTS[CA.CONSISTENCY_ALG_BC])
+            src = rnd.choice([CA.CONSISTENCY_ALG_BC, CA.CONSISTENCY_ALG_SHAVING])
+            _ALIAS["calg"][src] = CA.register_consistency_algorithm(CA.CONSISTENCY_ALG_FCTS[src])
 
 
 _KEEP = []
+_ALIAS = {"vh": {}, "dh": {}, "calg": {}}
 
 
 def run_trace(task):
@@ -179,7 +187,16 @@ def run_trace(task):
                 if mid != before:
                     problem_changes.append({"case": ci, "detail": "problem fields changed by constructing a solver",
                                             "before": str(before)[:300], "after": str(mid)[:300]})
-            s = M.build_solver(c.get("model"), c.get("cfg"), problem=p) if kw is None else BacktrackSolver(
+            cfg_run = c.get("cfg")
+            if hrnd is not None and kw is None and hrnd.random() < 0.7:
+                # run through indices registered during the history (same functions under new indices)
+                cfg_run = dict(cfg_run)
+                for key, table in (("vh", M.VH), ("dh", M.DH), ("calg", M.CALG)):
+                    src = table.get(cfg_run[key]) if isinstance(cfg_run[key], str) else None
+                    if src is not None and src in _ALIAS[key] and hrnd.random() < 0.7:
+                        cfg_run[key] = _ALIAS[key][src]
+                        hlog.append("use_registered_" + key)
+            s = M.build_solver(c.get("model"), cfg_run, problem=p) if kw is None else BacktrackSolver(
                 p, log_level="ERROR", **kw)
             sols = []
             if op in ("enum", "partial"):
